@@ -60,8 +60,24 @@ def gen_pieces(rng, maxlen=8, escapes=True):
     return out
 
 
+def pow2_edge(rng):
+    """decimal numeral just below / at / just above a power of two (rounding carries out of the significand)"""
+    k = rng.randrange(-70, 80)
+    extra = rng.choice([18, 20, 24])
+    if k >= 0:
+        base, scale = 2 ** k * 10 ** extra, extra
+    else:
+        base, scale = 5 ** (-k) * 10 ** extra, extra - k
+    digs = str(base + rng.choice([-1, 0, 1, -3]))
+    if len(digs) <= scale:
+        digs = "0" * (scale - len(digs) + 1) + digs
+    return ("-" if rng.random() < 0.3 else "") + digs[:-scale] + "." + digs[-scale:]
+
+
 def gen_number(rng):
     r = rng.random()
+    if r < 0.06:
+        return pow2_edge(rng)
     if r < 0.35:
         return str(rng.choice([0, 1, 7, 10, 99, 255, 65535, 2 ** 31, 2 ** 32, 2 ** 53, 2 ** 63 - 1, 2 ** 63, 2 ** 63 + 1, 2 ** 64 - 1, rng.randrange(0, 10 ** rng.randrange(1, 19))]))
     if r < 0.55:
